@@ -503,3 +503,43 @@ Definition check_scratch (c : trace_case) : bool :=
    whose value differs between the start and the end (what _changes_map holds at _post_update, up to order) *)
 Definition calc_changes (s fin : state) (cs : list cell) : list (cell * value * value) :=
   map (fun c => (c, val s c, val fin c)) (filter (fun c => negb (value_eqb (val s c) (val fin c))) cs).
+
+(* ------------------------------------------------------------------------------------------
+   Dependency edges: _use_node records the edge (node being computed -> node read) BEFORE it brings the
+   read node up to date, so also a read that is abandoned with an OrderError leaves its edge.  [reads] lists
+   the cells one evaluation touches (up to and including the first dirty one); [replay_edges] collects the
+   node-level edges of all evaluations of a recorded loop.  The harness checks that the engine's dependency
+   graph contains them after the loop (invalidation after a later edit relies on exactly these edges). *)
+Fixpoint reads (val : cell -> value) (isdirty : cell -> bool) (t : itree) : list cell :=
+  match t with
+  | Read c k => c :: (if isdirty c then [] else reads val isdirty (k (val c)))
+  | _ => []
+  end.
+
+Definition eval_edges (P : prog) (s : state) (c : cell) : list (Z * Z) :=
+  match P c with
+  | Some t => map (fun d => (fst c, fst d)) (reads (val s) (fun x => mem x (dirty s)) t)
+  | None => []
+  end.
+
+Fixpoint replay_edges (P : prog) (ls : list titem) (s : state) : list (Z * Z) :=
+  match ls with
+  | [] => []
+  | TS _ _ :: t => replay_edges P t s
+  | TL l :: t =>
+      let here := match l with
+                  | LDone c | LOpp c | LNeed c _ => eval_edges P s c
+                  | _ => []
+                  end in
+      match exec P l s with
+      | Some s' => here ++ replay_edges P t s'
+      | None => here
+      end
+  end.
+
+Definition check_edges (c : trace_case) (engine_edges : list (Z * Z)) : bool :=
+  match c with
+  | (cols, rows, vals, dirty0, items, _, _) =>
+      forallb (fun e => existsb (fun g => Z.eqb (fst e) (fst g) && Z.eqb (snd e) (snd g)) engine_edges)
+              (replay_edges (prog_of cols rows) items (init_state (val_of vals) dirty0))
+  end.
